@@ -155,10 +155,10 @@ def plans_of(spec):
     for path in ('LIB', 'CLI'):
         if path == 'LIB' or any(pr['path'] == path for pr in spec['pres']):
             p, ix = plan_for(spec, gen_presentation(None, n, canonical=True, path=path), 'p0' + path)
-            out.append(('p0' + path, 'plain', p, ix))
+            out.append(('p0' + path, spec.get('_variant', 'plain'), p, ix))
     for k, pres in enumerate(spec['pres']):
         p, ixk = plan_for(spec, pres, 'p%d' % (k + 1))
-        out.append(('p%d' % (k + 1), 'plain', p, ixk))
+        out.append(('p%d' % (k + 1), spec.get('_variant', 'plain'), p, ixk))
     return out
 
 
@@ -344,3 +344,10 @@ def shrinks(spec, viol):
     if wl['type'] != 5:
         s = copy.deepcopy(spec); s['wl']['type'] = 5
         yield s
+
+
+def harden(spec):
+    """the same job on the ASan+UBSan build (used by the gate for erratic candidates)"""
+    s = copy.deepcopy(spec)
+    s['_variant'] = 'asan'
+    return s
